@@ -82,6 +82,12 @@ class ItemSession(object):
         url_result = URLResult()
         url_result.filename = filename
 
+        # Store the links discovered so far before the item is marked.
+        # Otherwise a crash between the two transactions leaves the item
+        # finished while the URLs scraped from it are unknown and a resumed
+        # crawl never visits them.
+        self.finish()
+
         self.app_session.factory['URLTable'].check_in(
             url,
             status,
